@@ -160,9 +160,12 @@ func init() {
 			What: "nil cache and capacity 0 never report a replay and never panic", Bounds: "-", Outside: "-"},
 	)
 	reg("C20",
-		HarnessDef{ID: "H20.3a", Spec: HarnessSpec{Name: "vH_C20_url_to_config_nopanic", Pkg: "pkg/appctl", LoopBound: 12, TimeoutS: 120, Par: 10},
-			What:   "URLToClientConfig on EVERY string of up to 10 bytes, with the real net/url.Parse executed symbolically: an error or a config, never a panic",
-			Bounds: "strings <= 10 bytes (covers every prefix relation with \"mieru://\"); base64 and protobuf decoding opaque", Outside: "longer links (the only length-dependent step is the 8-byte prefix cut)"},
+		HarnessDef{ID: "H20.3q", Spec: HarnessSpec{Name: "vH_C20_url_to_config_contract", Pkg: "pkg/appctl", LoopBound: 16, TimeoutS: 120, Par: 8, Redirects: map[string]string{"net/url.Parse": "vStubURLParse"}},
+			What:   "URLToClientConfig on EVERY string of up to 12 bytes with net/url.Parse replaced by a contract stub (scheme / opaque / error as documented; authority and path arbitrary): an error or a config, never a panic",
+			Bounds: "strings <= 12 bytes; base64 and protobuf decoding opaque", Outside: "fidelity of the stub to net/url (the thorough harness H20.3a executes the real parser)"},
+		HarnessDef{ID: "H20.3a", Tier: "thorough", Spec: HarnessSpec{Name: "vH_C20_url_to_config_nopanic7", Pkg: "pkg/appctl", LoopBound: 12, TimeoutS: 120, Par: 14},
+			What:   "URLToClientConfig on EVERY string of up to 7 bytes (every string shorter than the 8-byte prefix), with the REAL net/url.Parse executed symbolically: an error or a config, never a panic",
+			Bounds: "strings <= 7 bytes; base64 and protobuf decoding opaque", Outside: "longer links (the only length-dependent step is the 8-byte prefix cut, covered by H20.3q up to 12 bytes)"},
 	)
 	sess := map[string]string{
 		"github.com/google/btree.NewG":                           "vTreeNew",
@@ -204,7 +207,9 @@ func init() {
 			Bounds: "customHexStrings empty; rng.FixedInt an uninterpreted function of (n, hint); proto.Clone = deep copy", Outside: "Encode/Decode (protobuf + base64 reflection code); hex prefixes"},
 	)
 	reg("C19",
-		HarnessDef{ID: "H19.1a", Spec: HarnessSpec{Name: "vH_C19_rollup_order2", Pkg: "pkg/metrics", LoopBound: 6, TimeoutS: 600, Par: 4},
+		HarnessDef{ID: "H19.1q", Spec: HarnessSpec{Name: "vH_C19_rollup_total2", Pkg: "pkg/metrics", LoopBound: 6, TimeoutS: 240, Par: 4, TimeUnit: "ms"},
+			What: "Counter.doRollUp (first pass) on two un-rolled entries, arbitrary ordered times and clock: the total is preserved and DeltaBetween of any window <= total", Bounds: "2 entries, times 2020..2100 in ms (millisecond time model)", Outside: "ordering in time: H19.1a (thorough); longer histories; later passes"},
+		HarnessDef{ID: "H19.1a", Tier: "thorough", Spec: HarnessSpec{Name: "vH_C19_rollup_order2", Pkg: "pkg/metrics", LoopBound: 6, TimeoutS: 1500, Par: 4, TimeUnit: "ms"},
 			What:   "Counter.doRollUp (first pass) on two un-rolled entries with arbitrary ordered times and an arbitrary non-decreasing clock at every reading: total preserved, history stays ordered in time, DeltaBetween of any window <= total",
 			Bounds: "2 entries, times 2020..2100 in ms", Outside: "longer histories and later passes (H19.1b when listed)"},
 	)
